@@ -93,5 +93,18 @@ func Install(seed uint64, intensity int, sites map[string]bool) {
 	})
 }
 
+// Hold makes every hit of one site pause for d (nothing else is perturbed).
+func Hold(site string, d time.Duration) {
+	mu.Lock()
+	hits = map[string]*int64{}
+	mu.Unlock()
+	verifhook.Set(func(s string) {
+		atomic.AddInt64(counter(s), 1)
+		if s == site {
+			time.Sleep(d)
+		}
+	})
+}
+
 // Remove deactivates perturbation.
 func Remove() { verifhook.Set(nil) }
